@@ -1,7 +1,7 @@
 (* Proofs/OutputBytes.v — the byte level of the JSON / SARIF renderings (C06): what click.echo(json.dumps(doc, indent=K))
    writes is pure ASCII (hence well-formed UTF-8 under every stdout encoding), and the specification's reader of the JSON
    grammar reads the document back from it, for every JSON value (every byte string as a str, every integer). *)
-From TL Require Import Lib.Base Model.OutputTypes Gen.OutputGen Model.Output Model.OutputBytes Proofs.OutputStr Proofs.OutputSan Proofs.OutputJson.
+From TL Require Import Lib.Base Model.OutputTypes Gen.OutputGen Model.Output Model.OutputBytes Proofs.OutputStr Proofs.OutputSan.
 From Coq Require Import ZArith Lia.
 Local Open Scope string_scope.
 
@@ -555,11 +555,3 @@ Definition wellformed_json_text (out : string) : bool :=
 
 Theorem stdout_wellformed j : wellformed_json_text (stdout_of j) = true.
 Proof. unfold wellformed_json_text. now rewrite stdout_utf8, loads_stdout. Qed.
-
-Theorem json_bytes_roundtrip vs :
-  bind (loads (stdout_of (render_json vs))) decode_json = Some (map san_core vs, Z.of_nat (List.length vs)).
-Proof. rewrite loads_stdout. cbn [bind]. apply json_roundtrip. Qed.
-
-Theorem sarif_bytes_roundtrip q ver vs :
-  bind (loads (stdout_of (render_sarif q ver vs))) decode_sarif = Some (map san_core vs).
-Proof. rewrite loads_stdout. cbn [bind]. apply sarif_roundtrip_exact. Qed.
